@@ -6,8 +6,8 @@ Import ListNotations.
 Open Scope Z_scope.
 
 Notation st7 := (st N batch (list N) (Z * batch)%type) (only parsing).
-Notation breachB H thr := (reachB N.eqb bytes_eqb column_signature batch_rows (bflush H thr)).
-Notation breachO H thr := (reachO N.eqb bytes_eqb column_signature batch_rows (bflush H thr)).
+Notation breachB H thr := (reachB N.eqb bytes_eqb buffer_schema_key batch_rows (bflush H thr)).
+Notation breachO H thr := (reachO N.eqb bytes_eqb buffer_schema_key batch_rows (bflush H thr)).
 
 (* Durability with the WAL enabled, for ALL interleavings of writers, workers, the age flusher,
    FlushAll, Close, WAL rotation / ageing / purge / replay, restarts and for ALL storage fault
@@ -22,7 +22,7 @@ Notation breachO H thr := (reachO N.eqb bytes_eqb column_signature batch_rows (b
 Theorem C07_durable_inv : forall H thr cfg (s : st7), breachB H thr cfg s ->
   forall x, In x (accepted s) -> In x (stored_items s) \/ In x (volatile_items s) \/ In x (wal_items s).
 Proof.
-  intros H thr cfg s Hr. exact (durable_reach N.eqb bytes_eqb column_signature batch_rows (bflush H thr) N_eqb_spec' N.eq_dec batch_dec cfg s Hr).
+  intros H thr cfg s Hr. exact (durable_reach N.eqb bytes_eqb buffer_schema_key batch_rows (bflush H thr) N_eqb_spec' N.eq_dec batch_dec cfg s Hr).
 Qed.
 Print Assumptions C07_durable_inv.
 
@@ -33,7 +33,7 @@ Theorem C07_at_most_once : forall H thr cfg (s : st7), breachO H thr cfg s ->
   forall x, (count_occ (item_dec N.eq_dec batch_dec) (volatile_items s) x
            + count_occ (item_dec N.eq_dec batch_dec) (stored_any s) x <= 1)%nat.
 Proof.
-  intros H thr cfg s Hr. destruct (once_reach N.eqb bytes_eqb column_signature batch_rows (bflush H thr) N_eqb_spec' N.eq_dec batch_dec cfg s Hr) as [Ho _]. exact Ho.
+  intros H thr cfg s Hr. destruct (once_reach N.eqb bytes_eqb buffer_schema_key batch_rows (bflush H thr) N_eqb_spec' N.eq_dec batch_dec cfg s Hr) as [Ho _]. exact Ho.
 Qed.
 Print Assumptions C07_at_most_once.
 
@@ -45,7 +45,7 @@ Theorem C07_eventually_once : forall H thr cfg (s : st7), breachBO H thr cfg s -
   Permutation (accepted s) (stored_items s) /\
   (forall x, (count_occ (item_dec N.eq_dec batch_dec) (stored_any s) x <= 1)%nat).
 Proof.
-  intros H thr cfg s. exact (exactly_once N.eqb bytes_eqb column_signature batch_rows (bflush H thr) N_eqb_spec' N.eq_dec batch_dec cfg s).
+  intros H thr cfg s. exact (exactly_once N.eqb bytes_eqb buffer_schema_key batch_rows (bflush H thr) N_eqb_spec' N.eq_dec batch_dec cfg s).
 Qed.
 Print Assumptions C07_eventually_once.
 
@@ -73,19 +73,35 @@ Theorem C07_no_wal_guarded : forall H thr cfg ls (s : st7),
   Permutation (volatile_items s ++ stored_items s) (accepted s).
 Proof.
   intros H thr cfg ls s Hr Hq Hd.
-  pose proof (conservation N.eqb bytes_eqb column_signature batch_rows (bflush H thr) N_eqb_spec' N.eq_dec batch_dec cfg ls s Hr Hq) as P.
+  pose proof (conservation N.eqb bytes_eqb buffer_schema_key batch_rows (bflush H thr) N_eqb_spec' N.eq_dec batch_dec cfg ls s Hr Hq) as P.
   unfold all_items, dropped_items in P. rewrite Hd in P. cbn in P. rewrite app_nil_r in P. exact P.
 Qed.
 Print Assumptions C07_no_wal_guarded.
 
-(* the four ways the real code breaks the guards (each reproduced on the real code by the check) *)
+(* Graceful shutdown of the code as it is (arrow-buffer Close, then wal-purge, then wal Close): after a
+   complete failure-free Close every WAL entry is already stored, so the purge respects the guard;
+   when a flush failure is recorded the purge is skipped (ModelC07.O7PurgeGuarded). *)
+Theorem C07_shutdown_purge_safe : forall H thr, 0 < H -> forall cfg ls (s : st7),
+  brun H thr cfg binit ls = Some s ->
+  forallb (fun l : label N batch => no_replay l && outcome_ok l) ls = true ->
+  fix_drain cfg = true -> phase s = PClosed -> clean s = true -> inputs_ok s ->
+  (forall t r, In (t, r) (dropped s) -> r <> DQueueFull) ->
+  bbenign H thr cfg s LPurgeAll /\ Permutation (accepted s) (stored_items s).
+Proof. exact shutdown_purge_safe. Qed.
+Print Assumptions C07_shutdown_purge_safe.
+
+(* The ways in which the guards are broken.  C07_shutdown_purge_refuted / C07_shutdown_queue_refuted
+   are about the OLD shutdown order (wal-purge as a hook, before f1d141d) and the old Close,
+   C07_purge_before_replay_refuted about the tick before 8a1c0f1, C07_replay_buffered_old_refuted about
+   the replay before 7b9e05e; the others are about the code as it is and are reproduced on it by the
+   check on every run. *)
 Theorem C07_shutdown_purge_refuted :
   exists s, brun Hreal thr_real (cfg7 true 100 8) binit run_shutdown_purge = Some s /\ phase s = PClosed /\ all_lost s.
 Proof. exact shutdown_purge_refuted. Qed.
 Print Assumptions C07_shutdown_purge_refuted.
 
 Theorem C07_shutdown_queue_refuted :
-  exists s, brun Hreal thr_real (cfg7 true 1 8) binit run_shutdown_queue = Some s /\
+  exists s, brun Hreal thr_real (cfg7_old true 1 8) binit run_shutdown_queue = Some s /\
     List.length (accepted s) = 2%nat /\ List.length (stored_items s) = 1%nat /\ volatile_items s = [] /\ wal_items s = [].
 Proof. exact shutdown_queue_refuted. Qed.
 Print Assumptions C07_shutdown_queue_refuted.
@@ -104,10 +120,26 @@ Theorem C07_purge_before_replay_refuted :
 Proof. exact purge_before_replay_refuted. Qed.
 Print Assumptions C07_purge_before_replay_refuted.
 
+(* about the replay before 7b9e05e (file deleted while the re-buffered rows were still buffered) *)
+Theorem C07_replay_buffered_old_refuted :
+  exists s, brun Hreal thr_real (cfg7 true 100 8) binit run_replay_buffered_old = Some s /\ all_lost s.
+Proof. exact replay_buffered_old_refuted. Qed.
+Print Assumptions C07_replay_buffered_old_refuted.
+
+(* the code as it is: rows whose re-buffering triggered the size flush are only queued when the file
+   is deleted (FlushAll does not wait for the worker) *)
 Theorem C07_replay_then_fail_refuted :
   exists s, brun Hreal thr_real (cfg7 true 1 8) binit run_replay_then_fail = Some s /\ all_lost s.
 Proof. exact replay_then_fail_refuted. Qed.
 Print Assumptions C07_replay_then_fail_refuted.
+
+(* the flag is reset although the file with the failed rows was skipped (too young / active), or was
+   kept because FlushReplayed failed *)
+Theorem C07_reset_after_skip_refuted :
+  (exists s, brun Hreal thr_real (cfg7 true 1 8) binit run_reset_after_skip = Some s /\ flush_failed s = false /\ all_lost s) /\
+  (exists s, brun Hreal thr_real (cfg7 true 100 8) binit run_reset_after_keep = Some s /\ flush_failed s = false /\ all_lost s).
+Proof. split; [exact reset_after_skip_refuted|exact reset_after_keep_refuted]. Qed.
+Print Assumptions C07_reset_after_skip_refuted.
 
 (* Graceful shutdown order, for EVERY registration table and every choice of priorities: the
    coordinator runs the hooks sorted by priority, then the components sorted by priority ... *)
